@@ -1,6 +1,7 @@
 package markdown
 
 import (
+	"bufio"
 	"bytes"
 	"context"
 	"fmt"
@@ -13,10 +14,12 @@ import (
 
 	"github.com/yuin/goldmark"
 	"github.com/yuin/goldmark/ast"
-	east "github.com/yuin/goldmark/extension/ast"
 	"github.com/yuin/goldmark/extension"
+	east "github.com/yuin/goldmark/extension/ast"
 	"github.com/yuin/goldmark/parser"
+	ghtml "github.com/yuin/goldmark/renderer/html"
 	"github.com/yuin/goldmark/text"
+	"github.com/yuin/goldmark/util"
 
 	yaml "gopkg.in/yaml.v3"
 )
@@ -197,7 +200,7 @@ func (m *Markdown) renderParagraph(w io.Writer, n *ast.Paragraph, src []byte) er
 // renderFencedCodeBlock renders a fenced code block with optional language.
 func (m *Markdown) renderFencedCodeBlock(w io.Writer, n *ast.FencedCodeBlock, src []byte) error {
 	return m.renderTemplate(w, "code_block", map[string]any{
-		"language": string(n.Language(src)),
+		"language": string(plainText(n.Language(src))),
 		"code":     codeBlockContent(n, src),
 	})
 }
@@ -305,8 +308,9 @@ func (m *Markdown) renderInlineChildren(w io.Writer, node ast.Node, src []byte) 
 func (m *Markdown) renderInlineNode(w io.Writer, node ast.Node, src []byte) error {
 	switch n := node.(type) {
 	case *ast.Text:
-		segment := string(n.Segment.Value(src))
-		if _, err := io.WriteString(w, segment); err != nil {
+		// Literal text is written as HTML text: backslash escapes and character references are
+		// resolved and markup-significant characters are escaped, exactly as goldmark's own renderer does.
+		if err := writeText(w, n.Segment.Value(src), n.IsRaw()); err != nil {
 			return err
 		}
 		if n.HardLineBreak() {
@@ -402,12 +406,30 @@ func (m *Markdown) renderTemplate(w io.Writer, name string, data map[string]any)
 	return err
 }
 
+// writeText writes a literal text segment of the markdown source as HTML text.
+func writeText(w io.Writer, segment []byte, raw bool) error {
+	if raw {
+		_, err := w.Write(segment)
+		return err
+	}
+	bw := bufio.NewWriter(w)
+	ghtml.DefaultWriter.Write(bw, segment)
+	return bw.Flush()
+}
+
+// plainText resolves backslash escapes and character references of a literal text segment.
+func plainText(segment []byte) []byte {
+	segment = util.UnescapePunctuations(segment)
+	segment = util.ResolveNumericReferences(segment)
+	return util.ResolveEntityNames(segment)
+}
+
 // inlineText extracts plain text from an inline node tree (used for alt text, heading IDs).
 func inlineText(node ast.Node, src []byte) string {
 	var buf strings.Builder
 	for c := node.FirstChild(); c != nil; c = c.NextSibling() {
 		if t, ok := c.(*ast.Text); ok {
-			buf.Write(t.Segment.Value(src))
+			buf.Write(plainText(t.Segment.Value(src)))
 		} else if c.HasChildren() {
 			buf.WriteString(inlineText(c, src))
 		}
